@@ -1,0 +1,11 @@
+//go:build verif
+
+package null
+
+// Contracts checked by /verif/gvc. Comment-only file (build tag verif).
+// C16: every flush request is answered through exactly one completion path (calls(Name): number of calls named
+// Name executed so far by the function; calls(goK): executions of its K-th go statement).
+//@ func (Client).SendMetricsAsync
+//@   requires cb != nil
+//@   ensures  calls(cb) == 1
+//@   modifies everything
